@@ -27,7 +27,8 @@ from vf.core import Outcome, h12
 PROPERTY = "C09"
 
 #: The supported fragment = what the generator emits.  It was widened construct by construct, in this order, while the
-#: tree (with the two proposed C09 fixes) stayed green; see META["rule"] for what is demanded per construct.
+#: tree stayed green; see META["rule"] for what is demanded per construct.  "recursion-joined" (pre-call local of a
+#: recursive helper assigned in both arms of an if/else) is implemented but NOT part of the fragment: HEAD fails it.
 FEATURES = ("arith", "if", "while", "call", "nested-call", "global", "attr", "alias", "obj-param", "early-return", "list",
             "computed-index", "list-param", "joined-if", "branchy-helper", "recursion")
 
@@ -43,7 +44,15 @@ META = {
             "module (as operands anywhere in expressions, nested in arguments, helper->helper); reads of two module-level int globals; "
             "one prelude class Box with attribute get/set on fields v/w; 3-element lists with constant and computed ((expr) % 3) "
             "subscripts for load and store; aliases `o1 = o0` / `l1 = l0`; early `return` at the end of an if-branch (also inside "
-            "loops); helpers that receive a Box or a list and read/mutate it}, rendered one statement per line, + two int arguments of "
+            "loops); helpers that receive a Box or a list and read/mutate it; if/else whose arms both end assigning the same variable "
+            "(joined-if); branching helpers (own if/else and loops, result depends on the arm taken) called from branching callers, "
+            "also from the caller's last top-level block, so that basic-block indices of nested callee blocks coincide with "
+            "top-level caller blocks; fuel-bounded self-recursive helpers hK(a0, a1) (guard `if a1 <= 0: return`, then a fresh "
+            "local defined before `vR = hK(e, a1 - 1)` and used after it; besides that only straight-line assignments to fresh "
+            "locals, calls to other helpers allowed; entry fuel (e) % 3, depth <= 3; NOT in the fragment: "
+            "a local of a recursive helper assigned on different lines in different frames - HEAD resolves an outer frame's use by "
+            "an inner frame's definition, see replays/C09/observed-recursion-different-definition-lines.json)}, rendered one statement per "
+            "line, + two int arguments of "
             "`var_0 = sut.f(a0, a1)`; mode statement (criterion = store of var_0) or assertion (`assert var_0 == value` sliced as well). "
             "Oracles per case: (1) every checked line was executed (sys.monitoring, instruction-level upper bracket, import included); "
             "(2) DynamicSlicer.slice contains its criterion and only instructions that were executed no later than the criterion "
@@ -98,6 +107,7 @@ class _Gen:
         self.lsts = ["m"] if kind == "lst" else []
         self.n_int = self.n_obj = self.n_lst = self.n_cnt = 0
         self.loop_depth = 0
+        self.single_def = False
 
     def pick(self, n: int) -> int:
         return self.draw(st.integers(0, n - 1))
@@ -206,6 +216,14 @@ class _Gen:
         return ["if", c, [*then, ["set", name, e1]], [*els, ["set", name, e2]]]
 
     def stmt(self, depth: int) -> list:
+        if self.single_def:
+            # bodies of recursive helpers: every local has exactly one defining line (HEAD resolves the use of an outer
+            # frame by the definition of an inner frame of the same code object - sound only if that is the same line)
+            e = self.expr(2)
+            name = f"v{self.n_int}"
+            self.n_int += 1
+            self.ints.append(name)
+            return ["set", name, e]
         opts = [("set", 5)]
         if depth < 2:
             if "if" in self.feats:
@@ -289,6 +307,7 @@ def _recursive_helper(draw, feats: frozenset[str], callable_kinds: list[str], k:
     different frames (not part of the default fragment: HEAD resolves a use to a definition of an inner frame).
     """
     g = _Gen(draw, feats, callable_kinds, "int")
+    g.single_def = "recursion-joined" not in feats
     body = g.block(g.pick(3), 0)
     # mostly keep the earlier locals out of the base value and of the argument, so that only the use *after* the
     # recursive call needs the definition of vP
